@@ -87,6 +87,22 @@ def forms(rng):
         out.append(("jalr %s, (%s)" % (R(d), R(a)), lambda rg, d=d, a=a: [("jumpr", d, rg[a])]))
         out.append(("la %s, lbl" % R(d), lambda rg, d=d: [("la", d, "lbl")]))
     out.append(("ret", lambda rg: [("jumpr", 0, rg[1])]))
+    # CSR instructions (Zicsr) and their pseudo-instructions; user-level CSR numbers from the N extension / RARS
+    csrs = {"ustatus": 0, "uie": 4, "utvec": 5, "uscratch": 0x40, "uepc": 0x41, "ucause": 0x42, "utval": 0x43, "uip": 0x44}
+    for name, num in list(csrs.items()) + [("0x40", 0x40), ("5", 5), ("0b101", 5)]:
+        for d, a, _ in regs3[:3]:
+            for op in ("csrrw", "csrrs", "csrrc"):
+                out.append(("%s %s, %s, %s" % (op, R(d), name, R(a)), lambda rg, op=op, d=d, a=a, num=num: [("csr", op, d, num, a)]))
+            for op in ("csrrwi", "csrrsi", "csrrci"):
+                out.append(("%s %s, %s, %d" % (op, R(d), name, 7), lambda rg, op=op, d=d, num=num: [("csri", op, d, num, 7)]))
+            # pseudo-instructions (RARS operand order: the register first)
+            out.append(("csrr %s, %s" % (R(d), name), lambda rg, d=d, num=num: [("csr", "csrrs", d, num, 0)]))
+            out.append(("csrw %s, %s" % (R(a), name), lambda rg, a=a, num=num: [("csr", "csrrw", 0, num, a)]))
+            out.append(("csrs %s, %s" % (R(a), name), lambda rg, a=a, num=num: [("csr", "csrrs", 0, num, a)]))
+            out.append(("csrc %s, %s" % (R(a), name), lambda rg, a=a, num=num: [("csr", "csrrc", 0, num, a)]))
+        out.append(("csrwi %s, 3" % name, lambda rg, num=num: [("csri", "csrrwi", 0, num, 3)]))
+        out.append(("csrsi %s, 3" % name, lambda rg, num=num: [("csri", "csrrsi", 0, num, 3)]))
+        out.append(("csrci %s, 3" % name, lambda rg, num=num: [("csri", "csrrci", 0, num, 3)]))
     return out
 
 
@@ -126,5 +142,7 @@ def effect_of_nodes(nodes, rg):
             eff.append(("jump", int(f[1]), f[2]))
         elif k == "jumplinkr":
             eff.append(("jumpr", int(f[1]), interp.s32(val(int(f[2])) + int(f[3]))))
+        elif k in ("csr", "csri"):
+            eff.append((k, f[0], int(f[1]), int(f[2]), int(f[3])))
     # writes to x0 have no architectural effect
     return [e for e in eff if not (e[0] == "reg" and e[1] == 0)]
